@@ -106,6 +106,7 @@ type input struct {
 	Trunc     *int    `json:"trunc,omitempty"` // new file length
 	Swap      []int   `json:"swap,omitempty"`  // [offA, offB, n]: exchange n bytes
 	Note      string  `json:"note,omitempty"`
+	Pass      string  `json:"pass,omitempty"` // "mut": whole-pipeline mutation pass (mutate.go)
 }
 
 func (in *input) apply(orig []byte) []byte {
@@ -462,6 +463,9 @@ type mcase struct {
 
 func (fi *fontInfo) toInput(c *mcase) input {
 	in := input{Font: fi.rel, Container: fi.container, Mut: c.mut, Table: c.table, Writes: c.writes, Swap: c.swap}
+	if strings.HasPrefix(c.mut, "m") {
+		in.Pass = "mut"
+	}
 	if c.region >= 0 {
 		in.Table = fi.regions[c.region].name
 		f := c.field
@@ -809,6 +813,8 @@ var (
 
 var sink int
 
+var mperOverride int // -mper: mutants per font of the mutation pass
+
 func glyphBattery(f *font.Face, gids []font.GID) {
 	for _, g := range gids {
 		f.HorizontalAdvance(g)
@@ -896,12 +902,7 @@ func queryFace(f *font.Face, fi *fontInfo, tc tierCfg, deadline time.Time) {
 	}
 
 	// one shaping
-	hf := harfbuzz.NewFont(f)
-	buf := harfbuzz.NewBuffer()
-	buf.AddRunes(shapeText, 0, -1)
-	buf.GuessSegmentProperties()
-	buf.Shape(hf, nil)
-	sink += len(buf.Info)
+	shapeOnce(harfbuzz.NewFont(f), shapeText, 0, nil)
 
 	// variations
 	var vars []font.Variation
@@ -944,12 +945,16 @@ type cmapIterUnbounded struct{ steps int }
 func runCase(b []byte, fi *fontInfo, tc tierCfg, wantStack bool) (out outcome) {
 	a0 := allocated()
 	t0 := time.Now()
+	shapeAlloc = 0
 	defer func() {
 		if r := recover(); r != nil {
 			out.Class = "panic"
 			if c, ok := r.(cmapIterUnbounded); ok {
 				out.Fail = fmt.Sprintf("hang: Cmap.Iter still running after %d steps", c.steps)
 				out.Kind = "hang:cmap-iter"
+			} else if c, ok := r.(shapeAllocExceeded); ok {
+				out.Fail = fmt.Sprintf("alloc: one shaping call of %d runes allocated %d bytes", c.runes, c.bytes)
+				out.Kind = "alloc:harfbuzz.(*Buffer).Shape"
 			} else {
 				fn, pos := panicSite()
 				out.Fail = fmt.Sprintf("panic: %v at %s (%s)", r, fn, pos)
@@ -960,6 +965,9 @@ func runCase(b []byte, fi *fontInfo, tc tierCfg, wantStack bool) (out outcome) {
 			}
 		}
 		out.Alloc = allocated() - a0
+		if out.Alloc >= shapeAlloc {
+			out.Alloc -= shapeAlloc // accounted per call in shapeOnce
+		}
 		dur := time.Since(t0)
 		out.Ms = dur.Milliseconds()
 		if out.Class != "panic" {
@@ -972,6 +980,10 @@ func runCase(b []byte, fi *fontInfo, tc tierCfg, wantStack bool) (out outcome) {
 			}
 		}
 	}()
+	if passMut {
+		runMutLoad(b, fi, tc, &out, t0)
+		return out
+	}
 	faces, err := font.ParseTTC(bytes.NewReader(b))
 	if err != nil {
 		out.Class = "load-error"
@@ -1063,7 +1075,7 @@ func allocSite(b []byte, fi *fontInfo, tc tierCfg) string {
 // ------------------------------------------------------------------------------------------------
 // child mode: runs the cases [start, end) of one font, one "R <i> <class> <json>" line per case
 
-func childMain(root, rel string, tc tierCfg, seed int64, start, end int) {
+func childMain(root, rel string, tc tierCfg, seed int64, start, end int, pass string) {
 	debug.SetMaxStack(64 << 20)
 	runtime.GOMAXPROCS(2)
 	limitAddressSpace()
@@ -1072,8 +1084,18 @@ func childMain(root, rel string, tc tierCfg, seed int64, start, end int) {
 		fmt.Fprintln(os.Stderr, "child:", err)
 		os.Exit(4)
 	}
-	fi.addBodyRegions(tc)
-	cases, _ := fi.enumerate(tc, seed)
+	var cases []mcase
+	if pass == "mut" {
+		passMut = true
+		mt := mutTierOf(tc.name)
+		if mperOverride > 0 {
+			mt.perFont, mt.perBig = mperOverride, mperOverride
+		}
+		cases = fi.enumerateMut(mt, seed)
+	} else {
+		fi.addBodyRegions(tc)
+		cases, _ = fi.enumerate(tc, seed)
+	}
 	if end > len(cases) {
 		end = len(cases)
 	}
@@ -1247,6 +1269,7 @@ type job struct {
 	fi         *fontInfo
 	cases      []mcase
 	start, end int
+	pass       string // "" (field pass) or "mut"
 }
 
 type parent struct {
@@ -1259,6 +1282,8 @@ type parent struct {
 	fails map[string][]failure
 	evals int
 	stop  atomic.Bool
+
+	mutEvals int
 }
 
 func (p *parent) record(j *job, i int, o outcome) {
@@ -1267,10 +1292,24 @@ func (p *parent) record(j *job, i int, o outcome) {
 	p.mu.Lock()
 	defer p.mu.Unlock()
 	p.evals++
-	p.hist["container:"+j.fi.container]++
-	p.hist["mut:"+c.mut]++
-	p.hist["outcome:"+o.Class]++
+	if j.pass == "mut" {
+		// the histogram of the mutation pass: table kinds (collection members folded), mutation kinds, outcomes
+		p.mutEvals++
+		p.hist["mcontainer:"+j.fi.container]++
+		p.hist["mmut:"+c.mut]++
+		p.hist["moutcome:"+o.Class]++
+		if c.mut != "none" {
+			p.hist["mtable:"+baseTag(in.Table)]++
+		}
+	} else {
+		p.hist["container:"+j.fi.container]++
+		p.hist["mut:"+c.mut]++
+		p.hist["outcome:"+o.Class]++
+	}
 	tab := in.Table
+	if j.pass == "mut" {
+		tab = ""
+	}
 	if k := strings.IndexAny(tab, ".<"); k > 0 && !strings.HasPrefix(tab, "dir:") {
 		tab = tab[:k]
 	}
@@ -1279,7 +1318,7 @@ func (p *parent) record(j *job, i int, o outcome) {
 	}
 	if o.Kind != "" {
 		p.hist["fail:"+o.Kind]++
-		rank := map[string]int{"set16": 0, "set32": 0, "none": 0, "trunc": 1, "swap": 2, "rand": 3}[c.mut]*1000 + len(c.writes)*100
+		rank := map[string]int{"set16": 0, "set32": 0, "none": 0, "trunc": 1, "swap": 2, "rand": 3, "mtrunc": 4, "moffs": 4, "mflip": 4, "mdir": 5}[c.mut]*1000 + len(c.writes)*100
 		f := failure{Fail: o.Fail, Kind: o.Kind, Input: in, rank: rank}
 		l := append(p.fails[o.Kind], f)
 		sort.SliceStable(l, func(a, b int) bool {
@@ -1300,7 +1339,7 @@ func (p *parent) runJob(j *job) {
 	start := j.start
 	for start < j.end && !p.stop.Load() {
 		cmd := exec.Command(p.self, "-child", "-tier", p.tc.name, "-seed", strconv.FormatInt(p.seed, 10), "-root", p.root,
-			"-font", j.fi.rel, "-start", strconv.Itoa(start), "-end", strconv.Itoa(j.end))
+			"-font", j.fi.rel, "-start", strconv.Itoa(start), "-end", strconv.Itoa(j.end), "-pass", j.pass, "-mper", strconv.Itoa(mperOverride))
 		cmd.Env = append(os.Environ(), "GOTRACEBACK=single")
 		stdout, err := cmd.StdoutPipe()
 		if err != nil {
@@ -1582,9 +1621,13 @@ func main() {
 		end      = flag.Int("end", 0, "internal")
 		jobs     = flag.Int("jobs", 4, "parallel child processes")
 		list     = flag.Bool("list", false, "print the selected fonts and their number of cases, then exit")
-		budget   = flag.Duration("budget", 0, "wall clock budget of the sweep (default: per tier)")
+		budget   = flag.Duration("budget", 0, "wall clock budget of the field pass (default: per tier)")
+		passF    = flag.String("pass", "", "passes to run: field, mut (default: both); internal with -child")
+		mbudget  = flag.Duration("mbudget", 0, "wall clock budget of the mutation pass (default: per tier)")
+		mper     = flag.Int("mper", 0, "mutants per font of the mutation pass (default: per tier; NOT passed to -replay)")
 	)
 	flag.Parse()
+	mperOverride = *mper
 	tc := tier(*tierName)
 	if *budget > 0 {
 		tc.budget = *budget
@@ -1593,7 +1636,7 @@ func main() {
 		*root = utilsRoot()
 	}
 	if *child {
-		childMain(*root, *fontRel, tc, *seed, *start, *end)
+		childMain(*root, *fontRel, tc, *seed, *start, *end, *passF)
 		return
 	}
 	if *replay != "" {
@@ -1632,23 +1675,38 @@ func main() {
 		return
 	}
 
-	jobc := make(chan *job)
-	var wg sync.WaitGroup
-	for w := 0; w < *jobs; w++ {
-		wg.Add(1)
+	runField := *passF == "" || *passF == "field"
+	runMut := *passF == "" || *passF == "mut"
+	pool := func(budget time.Duration) (chan *job, func()) {
+		jobc := make(chan *job)
+		var wg sync.WaitGroup
+		for w := 0; w < *jobs; w++ {
+			wg.Add(1)
+			go func() {
+				defer wg.Done()
+				for j := range jobc {
+					p.runJob(j)
+				}
+			}()
+		}
+		p.stop.Store(false)
+		done := make(chan struct{})
 		go func() {
-			defer wg.Done()
-			for j := range jobc {
-				p.runJob(j)
+			select {
+			case <-time.After(budget):
+				p.stop.Store(true)
+			case <-done:
 			}
 		}()
+		return jobc, func() { close(jobc); wg.Wait(); close(done) }
 	}
-	go func() {
-		time.Sleep(tc.budget)
-		p.stop.Store(true)
-	}()
 	var samples []input
 	identical, planned := 0, 0
+	truncated := false
+	jobc, wait := pool(tc.budget)
+	if !runField {
+		fonts = nil
+	}
 	for fiIdx, fi := range fonts {
 		fi.addBodyRegions(tc)
 		cases, ident := fi.enumerate(tc, *seed)
@@ -1673,7 +1731,7 @@ func main() {
 			jobc <- &job{fi: fi, cases: cases, start: s, end: e}
 		}
 	}
-	if tc.origCorpus && !p.stop.Load() && *fontRel == "" {
+	if tc.origCorpus && !p.stop.Load() && *fontRel == "" && runField {
 		// every corpus font, unmutated
 		chosen := map[string]bool{}
 		for _, fi := range fonts {
@@ -1692,8 +1750,61 @@ func main() {
 			planned++
 		}
 	}
-	close(jobc)
-	wg.Wait()
+	wait()
+	truncated = p.stop.Load() && p.hist["skipped:budget"] > 0
+	fieldSeconds := int(time.Since(t0).Seconds())
+
+	// the whole-pipeline mutation pass over every corpus font (mutate.go)
+	mutStats := map[string]interface{}{}
+	if runMut {
+		t1 := time.Now()
+		mt := mutTierOf(tc.name)
+		if *mbudget > 0 {
+			mt.budget = *mbudget
+		}
+		if *mper > 0 {
+			mt.perFont, mt.perBig = *mper, *mper
+		}
+		var mfonts []*fontInfo
+		if *fontRel != "" {
+			fi, err := loadFontInfo(*root, *fontRel)
+			if err != nil {
+				fatal("%v", err)
+			}
+			mfonts = []*fontInfo{fi}
+		} else {
+			mfonts = mutCorpus(*root, all, mt)
+		}
+		jobc, wait := pool(mt.budget)
+		mplanned, mskipped := 0, 0
+		for k, fi := range mfonts {
+			cases := fi.enumerateMut(mt, *seed)
+			mplanned += len(cases)
+			if (k == 0 || k == len(mfonts)/2 || k == len(mfonts)-1) && len(cases) > 1 && len(samples) < 6 {
+				samples = append(samples, fi.toInput(&cases[1+len(cases)/3]))
+			}
+			fi.data = nil
+			for s := 0; s < len(cases); s += mt.chunk {
+				e := s + mt.chunk
+				if e > len(cases) {
+					e = len(cases)
+				}
+				if p.stop.Load() {
+					mskipped += e - s
+					continue
+				}
+				jobc <- &job{fi: fi, cases: cases, start: s, end: e, pass: "mut"}
+			}
+		}
+		wait()
+		planned += mplanned
+		if mskipped > 0 {
+			p.hist["mskipped:budget"] = mskipped
+			truncated = true
+		}
+		mutStats = map[string]interface{}{"fonts": len(mfonts), "planned": mplanned, "evaluations": p.mutEvals, "skipped_by_budget": mskipped,
+			"mutants_per_font": mt.perFont, "seconds": int(time.Since(t1).Seconds())}
+	}
 
 	out := bufio.NewWriter(os.Stdout)
 	enc := json.NewEncoder(out)
@@ -1716,7 +1827,9 @@ func main() {
 		"samples":             samples,
 		"histogram":           p.hist,
 		"seconds":             int(time.Since(t0).Seconds()),
-		"truncated_by_budget": p.stop.Load() && p.hist["skipped:budget"] > 0,
+		"truncated_by_budget": truncated,
+		"field_pass_seconds":  fieldSeconds,
+		"mutation_pass":       mutStats,
 	}
 	enc.Encode(map[string]interface{}{"stats": stats})
 	out.Flush()
@@ -1736,6 +1849,7 @@ func replayMain(root, js string, tc tierCfg, dump string) {
 		fatal("%v", err)
 	}
 	b := in.apply(fi.data)
+	passMut = in.Pass == "mut"
 	if dump != "" {
 		if err := os.WriteFile(dump, b, 0o644); err != nil {
 			fatal("%v", err)
